@@ -21,7 +21,8 @@ CLAUSES = {
             "P04_executed_in_arrival_order_exactly_once", "P04_one_request_at_a_time",
             # "each exactly once" is also "at least once": at rest, with a client that reads, nothing is left unserved
             "P05_every_complete_request_answered", "P05_no_unserviced_request_at_quiescence", "P05_no_livelock",
-            "P19_at_most_one_interim_per_request"],        # no byte duplicated: also not the interim response
+            "P19_at_most_one_interim_per_request",         # no byte duplicated: also not the interim response
+            "P19_interim_only_for_expecting_http11_request"],   # ... and it stands in its own request's place, not among the responses before it
     "C05": ["P05_no_livelock", "P05_no_undelivered_output_at_quiescence", "P05_no_unserviced_request_at_quiescence",
             "P05_close_decision_carried_out", "P05_input_not_left_unread", "P05_every_complete_request_answered",
             "P05_dead_connection_closed", "P05_no_producer_waits_at_quiescence",
@@ -37,20 +38,22 @@ CLAUSES = {
             "P13_other_connections_undisturbed", "P13_listener_and_trigger_survive", "P13_only_the_io_thread_tears_down",
             "P13_no_thread_dies", "P13_io_loop_alive", "P13_workers_alive", "P13_connection_with_a_send_error_is_torn_down",
             # a worker left waiting on a connection that is gone is lost to the pool just as a dead one
-            "P12_paused_producer_released"],
+            "P12_paused_producer_released",
+            # "its buffers and descriptors are released": a file handed to wsgi.file_wrapper is closed
+            "P09_every_started_iterable_is_closed"],
     "C19": ["P19_at_most_one_interim_per_request", "P19_interim_only_for_expecting_http11_request",
             "P19_waiting_client_is_never_left_waiting", "P19_request_carries_only_its_own_fields", "P19_request_body_intact",
             "P04_executed_in_arrival_order_exactly_once", "P04_responses_in_request_order",
             "P04_wire_is_a_sequence_of_well_formed_responses", "P05_every_complete_request_answered"],
 }
 
-CLOSING_KINDS = {"close", "http10", "bad", "toolarge", "garbage", "te10"}
+CLOSING_KINDS = {"close", "http10", "bad", "toolarge", "garbage", "te10", "te_cl", "te_cl_empty"}
 REFUSED_KINDS = {"bad", "toolarge", "garbage"}
 
 
 def mk(reqs, *, lookahead=0, workers=1, room=None, split="one", apps=None, adj=None, use_poll=False,
        drains=True, extra_client=(), name="", faults=None, waits=(), second=None, sndbuf=65536, accept_faults=(),
-       read_before_await=False, body_in_two=False):
+       read_before_await=False, body_in_two=False, part_with_head=False):
     """Build a scenario.  reqs: list of dict(k, kind[, blen]).  split: how the client
     delivers the bytes: one | each | headbody | bytes2 (two arbitrary halves)."""
     apps = apps or {}
@@ -80,13 +83,16 @@ def mk(reqs, *, lookahead=0, workers=1, room=None, split="one", apps=None, adj=N
         buf = b""
         for r, (h, b) in zip(reqs, parts):
             if r["k"] in waits:
-                client.append(["send", buf + h])
+                # (part_with_head: the first byte of the body travels with the head - the body has begun but has not
+                # fully arrived when the request's turn comes)
+                cut = 1 if part_with_head and len(b) > 1 else 0
+                client.append(["send", buf + h + b[:cut]])
                 buf = b""
                 if read_before_await:
                     client.append(["readall_after_block", 1])
                 client.append(["await100", sum(1 for w in waits if w <= r["k"])])
-                if b:
-                    client.append(["send", b])
+                if b[cut:]:
+                    client.append(["send", b[cut:]])
             elif r.get("kind") == "expect" and body_in_two:
                 # the head of an expecting request with what stands before it, then its body in two pieces - the
                 # client does not wait for the interim response
@@ -148,7 +154,7 @@ def cfg_of(scn):
             elif cl == "smaller":
                 rlen = max(total - 1, 0)
             body = h_channel.request_bytes(r)[1]
-            blen = r.get("blen", 3) if kind in ("body", "chunked", "expect", "expect10") else 0
+            blen = r.get("blen", 3) if kind in ("body", "chunked", "expect", "expect10", "te_cl", "te_cl_empty") else 0
             mustclose = bool(kind in CLOSING_KINDS or cl == "larger" or spec.get("raise") or spec.get("raise_at") is not None)
             reqs.append({"v11": kind not in ("http10", "http10_ka", "expect10", "te10"), "expect": kind in ("expect", "expect_nobody", "expect10"),
                          "refuse": kind in REFUSED_KINDS, "rlen": rlen, "blen": blen, "mark": chr(64 + r["k"]), "mustclose": mustclose})
@@ -215,9 +221,13 @@ def classify(scn, ev, clauses, pos=0):
     bad = ev[pos - 1] if 0 < pos <= len(ev) else {}
     before = [e for e in ev[:max(pos - 1, 0)] if e.get("c") == bad.get("c")]
     dec = [e for e in before if (e["k"] == "flag") or (e["k"] == "fault" and e.get("hard"))]
+    # ("the teardown had not begun": handle_close had not yet left its critical section, in which `connected` is cleared -
+    # recorded for single-connection scenarios)
+    single = len(scn.get("conns", [])) == 1
     out["io_decision_races_chain"] = bool(sorted(clauses) == ["P11_no_execution_after_close_decision"] and bad.get("k") == "app_start" and dec
                                           and all(e.get("by") == "io" for e in dec) and any(e["k"] == "fault" for e in dec)
-                                          and not any(e["k"] == "closing" for e in before))
+                                          and ((single and not any(e["k"] == "closing_released" for e in ev[:max(pos - 1, 0)]))
+                                               or (not single and not any(e["k"] == "closing" for e in before))))
     kinds = [r.get("kind", "plain") for c in scn["conns"] for r in c.get("requests", [])]
     out["has_expect"] = any(k.startswith("expect") for k in kinds)
     out["expect_nobody"] = "expect_nobody" in kinds
@@ -225,6 +235,14 @@ def classify(scn, ev, clauses, pos=0):
     out["send_bytes_gt_hwm"] = a.get("send_bytes", 1) > a.get("outbuf_high_watermark", 16777216)
     out["torn_by_worker"] = any(e["k"] == "torn" and str(e.get("by", "")).startswith("w") for e in ev)
     out["send_fault"] = any("send" in (c.get("faults") or {}) for c in scn["conns"])
+    # K-C12-wait-after-teardown: a worker's flush raised (will_close set by a worker) after handle_close had already left
+    # its critical section, and that worker is the producer still waiting at the end
+    rel = [i for i, e in enumerate(ev) if e["k"] == "closing_released"]
+    late = [i for i, e in enumerate(ev) if e["k"] == "flag" and e.get("attr") == "will_close" and str(e.get("by", "")).startswith("w")]
+    out["flush_exception_after_teardown"] = bool(rel and late and min(rel) < max(late) and len(scn.get("conns", [])) == 1
+                                                 and set(clauses) <= {"P12_paused_producer_released", "P05_no_producer_waits_at_quiescence", "P09_every_started_iterable_is_closed",
+                                                                      "P05_every_complete_request_answered", "P05_no_unserviced_request_at_quiescence"}
+                                                 and "P12_paused_producer_released" in clauses)
     return out
 
 
